@@ -3,7 +3,11 @@
 Sequential, input-quantified.  Coq: Properties_C17.v (cuckoo conservation theorems + the refutation of the first
 sentence for CuckooSet, striped / split-list / Feldman growth theorems).  Tie: observable correspondence of the
 real containers (built from the current working tree, no hook) with the extracted models after every operation,
-with table-driven degenerate hash functors."""
+with table-driven degenerate hash functors.  All four families are compared in full with their extracted model:
+CuckooSeq, StripedSeq (results, size, bucket_count, contains of every key, final layout), SplitSeq (additionally the
+walk of the ordered list with its dummy nodes, the initialised buckets and where they point, m_nMaxItemCount, bucket
+table capacity, recursive init_bucket calls) and FeldmanSeq (the tree of array nodes slot by slot,
+get_level_statistics, iteration order)."""
 import os, json, re, subprocess
 import vcheck
 
@@ -20,8 +24,9 @@ FUEL = 6             # model fuel for the insert/resize retry loop
 def build_model(ctx):
     d = os.path.join(ctx.work, "model")
     os.makedirs(d, exist_ok=True)
-    models = ["CuckooSeq", "StripedSeq"]
-    srcs = [os.path.join(vcheck.COQ, "Extract", "Extract_C17.v"), os.path.join(vcheck.VERIF, "ocaml", "c17_main.ml")] + \
+    models = ["CuckooSeq", "StripedSeq", "SplitSeq", "SplitSeqObs", "FeldmanSeq", "FeldmanSeqObs"]
+    extracts = ["Extract_C17.v", "Extract_SplitSeq.v", "Extract_FeldmanSeq.v"]
+    srcs = [os.path.join(vcheck.COQ, "Extract", e) for e in extracts] + [os.path.join(vcheck.VERIF, "ocaml", "c17_main.ml")] + \
            [os.path.join(vcheck.COQ, "Model", m + ".v") for m in models]
     key = vcheck.file_hash(srcs)
     exe = os.path.join(d, "c17_exe")
@@ -32,10 +37,12 @@ def build_model(ctx):
     rc, out = vcheck.sh(["make", "-j%d" % vcheck.NCPU] + ["Model/%s.vo" % m for m in models], cwd=vcheck.COQ, timeout=900)
     if rc != 0:
         raise vcheck.BuildError("coq model does not build:\n" + out[-3000:])
-    rc, out = vcheck.extract("Extract_C17.v", d)
-    if rc != 0:
-        raise vcheck.BuildError("extraction failed:\n" + out[-3000:])
-    rc, out = vcheck.ocaml_build(d, ["c17model.mli", "c17model.ml", os.path.join(vcheck.VERIF, "ocaml", "c17_main.ml")], exe)
+    for e in extracts:
+        rc, out = vcheck.extract(e, d)
+        if rc != 0:
+            raise vcheck.BuildError("extraction of %s failed:\n" % e + out[-3000:])
+    rc, out = vcheck.ocaml_build(d, ["c17model.mli", "c17model.ml", "c17split.mli", "c17split.ml", "c17feldman.mli", "c17feldman.ml",
+                                     os.path.join(vcheck.VERIF, "ocaml", "c17_main.ml")], exe)
     if rc != 0:
         raise vcheck.BuildError("ocaml build failed:\n" + out[-3000:])
     open(stamp, "w").write(key)
@@ -138,7 +145,7 @@ def parse_out(text):
             if m:
                 cur["ops"].append({"res": int(m.group(2)), "size": int(m.group(3)), "lg": int(m.group(4)),
                                    "dropped": [int(x) for x in m.group(5).split(",") if x], "found": [int(x) for x in m.group(6).split(",") if x]})
-        elif line.startswith("final"):
+        elif line == "final" or line.startswith("final "):
             cur["final"] = [int(x) for x in line.split()[1:]]
         elif line.startswith("endcase"):
             cur["done"] = True
@@ -160,7 +167,7 @@ def run_impl(exe, cases, path, timeout=120):
     return parse_out(out), rc
 
 
-def run_batches(exe, cases, writer, workdir, tag, batch=250, timeout=30, max_failures=3):
+def run_batches(exe, cases, writer, workdir, tag, batch=250, timeout=30, max_failures=3, raw=None):
     """Run the real container over the cases in batches under a watchdog (address-space limit + timeout).  A case
     that does not reach `endcase` (hang, crash, memory blow-up) ends its batch; the run continues behind it.
     -> (parsed outputs, list of ids of cases that did not finish)"""
@@ -172,6 +179,8 @@ def run_batches(exe, cases, writer, workdir, tag, batch=250, timeout=30, max_fai
         writer(path, part)
         rc, txt = vcheck.sh("ulimit -v 6000000; timeout %d %s < %s" % (timeout, exe, path), timeout=timeout + 30)
         o = parse_out(txt); out.update(o)
+        if raw is not None:
+            raw.update(case_lines(txt))
         ndone = 0
         for c in part:
             if o.get(c["id"], {}).get("done"): ndone += 1
@@ -383,9 +392,9 @@ def gen_hash1(rng, kind, n, width):
     return t
 
 
-def gen_ops(rng, n, okind):
+def gen_ops(rng, n, okind, shuffle=None):
     order = list(range(n))
-    if rng.chance(1, 2):
+    if rng.chance(1, 2) if shuffle is None else shuffle:
         for i in range(n - 1, 0, -1):
             j = rng.below(i + 1); order[i], order[j] = order[j], order[i]
     ops = []
@@ -397,9 +406,18 @@ def gen_ops(rng, n, okind):
     return ops
 
 
+def feldman_metrics(head, array, width):
+    """details::metrics::make (only used by the generator to stay inside is_correct(); the compared value comes from
+    the Coq function make_metrics)."""
+    a = max(array, 2); h = max(head, 4); h = min(h, width)
+    if (width - h) % a: h += (width - h) % a
+    return h, a
+
+
 def gen_other_case(rng, cid, family):
     hk = rng.choice(OTHER_HASH_KINDS)
     okind = rng.below(3)
+    shuffle = None
     if family == "striped":
         pk = rng.below(2)
         cfg = [rng.choice([4, 4, 5]), pk, (1 + rng.below(2)) if pk == 0 else (1 + rng.below(3)), rng.below(3)]
@@ -408,19 +426,55 @@ def gen_other_case(rng, cid, family):
         ht = gen_hash1(rng, hk, n, 16)
     elif family == "split":
         lf = 1 + rng.below(2)
-        # the bucket table needs capacity ceil2(items / load factor) >= 2: the list starts with 2 buckets whatever the table
-        # size is (static table of capacity 1: init_bucket(1) never returns — an input the code does not reject)
-        cfg = [rng.choice([2, 4, 4, 8, 16, 64, 1024]) * lf, lf, rng.below(2), rng.below(2)]
-        n = 4 + rng.below(40)
+        # estimated item count: mostly 1..8 (bucket tables of 2..8 buckets: growth stops early, the table fills up),
+        # sometimes large (growth over 5-6 levels, deep init_bucket recursion, the > 1024 branch of calc_metrics)
+        items = (1 + rng.below(8)) if rng.chance(3, 5) else rng.choice([12, 16, 33, 64, 100, 1024, 2048, 3000, 5000])
+        shuffle = None
+        cfg = [items, lf, rng.below(2), 0 if rng.chance(3, 4) else 1, rng.below(2)]
+        n = 4 + rng.below(44)
         if hk == "duplicates": hk = "few-values"
-        ht = gen_hash1(rng, hk, n, 32)
+        width = 64 if rng.chance(1, 6) else 32
+        if rng.chance(1, 4):
+            # "deep": most keys live in bucket 0 at every table size; the last few keys (and now and then one in the middle)
+            # have hashes ending in seven one bits: their bucket 2^lg-1 and its ancestors 2^k-1 are uninitialised when
+            # they arrive after several growths without a sweep (recursive init_bucket, depth up to lg-1)
+            hk = "deep"
+            cfg[0] = rng.choice([64, 100, 1024, 2048]) * lf
+            if rng.chance(3, 4): cfg[4] = 0
+            n = 16 + rng.below(34)
+            ndeep = 1 + rng.below(3)
+            ht = [(rng.below(1 << 10) << 7) for _ in range(n - ndeep)] + [127 | (rng.below(16) << 7) for _ in range(ndeep)]
+            if rng.chance(1, 3): ht[rng.below(n - ndeep)] = 127 | (rng.below(16) << 7)
+            shuffle = rng.chance(1, 5)
+        else:
+            ht = gen_hash1(rng, hk, n, width)
     else:
-        width = rng.choice([16, 32])
-        cfg = [rng.choice([2, 4, 4, 5, 6]), rng.choice([1, 2, 2, 3, 4]), width]
+        while True:
+            width = rng.choice([8, 16, 16, 32, 32, 64])
+            cfg = [rng.choice([1, 2, 3, 3, 4, 5, 6]), rng.choice([1, 2, 2, 3, 3, 4]), width]
+            hb, ab = feldman_metrics(cfg[0], cfg[1], width)
+            if hb < width and ab < width: break       # number_splitter::is_correct
         n = 4 + rng.below(40)
-        ht = gen_hash1(rng, hk, n, width)
-    return {"id": cid, "family": family, "cfg": cfg, "hash": ht, "ops": gen_ops(rng, n, okind), "hash_kind": hk,
+        if rng.chance(1, 3):
+            # colliding prefixes: groups of hashes that agree on their first p bits (in cut order = low bits) and differ
+            # in a chosen higher bit, p spread over the whole width: expand_slot at every level down to the last
+            hk = "colliding-prefixes"
+            groups = [rng.below(1 << width) for _ in range(1 + rng.below(3))]
+            ht = []
+            for _ in range(n):
+                g = rng.choice(groups); pbits = rng.below(width)
+                ht.append((g ^ (1 << pbits) ^ ((rng.below(1 << width) >> (pbits + 1)) << (pbits + 1))) & ((1 << width) - 1))
+        else:
+            ht = gen_hash1(rng, hk, n, width)
+    return {"id": cid, "family": family, "cfg": cfg, "hash": ht, "ops": gen_ops(rng, n, okind, shuffle), "hash_kind": hk,
             "ops_kind": ["insert-only", "insert-erase", "mixed"][okind]}
+
+
+def norm_case(c):
+    """Older corpus / replay cases of the split family have no sweep flag: the harness sweeps by default."""
+    if c["family"] == "split" and len(c["cfg"]) == 4:
+        c = dict(c, cfg=c["cfg"] + [1])
+    return c
 
 
 def set_model(c):
@@ -444,6 +498,133 @@ def set_model(c):
     return out, sorted(cur.values())
 
 
+# ---- full comparison of split-list / Feldman with the extracted structural models: the two programs print the same lines
+
+def case_lines(text):
+    """-> {case id: (lines between `case` and `endcase`, finished?)}"""
+    res = {}; cur = None; cid = None
+    for line in text.split("\n"):
+        line = line.rstrip()
+        if line.startswith("case "):
+            cid = line[5:].strip(); cur = []; res[cid] = (cur, False)
+        elif cur is None:
+            continue
+        elif line == "endcase":
+            res[cid] = (cur, True); cur = None
+        elif line:
+            cur.append(line)
+    return res
+
+
+def write_struct_model_cases(path, cases):
+    """Input of `c17_exe runsplit|runfeldman`.  split: cfg as for the harness; feldman: <hash width> <head bits> <array bits>."""
+    with open(path, "w") as f:
+        for c in cases:
+            cfg = c["cfg"] if c["family"] == "split" else [c["cfg"][2], c["cfg"][0], c["cfg"][1]]
+            f.write("case %s\ncfg %s\nhash %s\nops %s\nend\n" % (c["id"], " ".join(map(str, cfg)), " ".join(map(str, c["hash"])), " ".join(map(str, c["ops"]))))
+
+
+def run_struct_model(model, fam, cases, path):
+    if not cases:
+        return {}
+    write_struct_model_cases(path, cases)
+    rc, out = vcheck.sh("ulimit -s unlimited; %s %s < %s" % (model, "runsplit" if fam == "split" else "runfeldman", path), timeout=1200)
+    return case_lines(out)
+
+
+def short(s_, n=400):
+    return s_ if len(s_) <= n else s_[:n] + " ...(%d chars)" % len(s_)
+
+
+def line_fields(line):
+    """`kind j k=v k=v ...` -> (kind, j, {k: v}) for op / lay / lay2 lines; other lines -> (kind, None, {"value": rest})"""
+    toks = line.split(" ")
+    kind = toks[0]
+    if kind in ("op", "lay", "lay2") and len(toks) > 1:
+        return kind, toks[1], dict(t.split("=", 1) for t in toks[2:] if "=" in t)
+    if kind in ("tree", "ls") and len(toks) > 1:
+        return kind, toks[1], {"value": " ".join(toks[2:])}
+    if kind == "finallay":
+        return kind, None, dict(t.split("=", 1) for t in toks[1:] if "=" in t)
+    return kind, None, {"value": " ".join(toks[1:])}
+
+
+STRUCT_WHAT = {"cap": "bucket table capacity / load factor after construction", "met": "effective head/array bits (metrics::make)",
+               "op": "operation result", "lay": "layout after the operation", "lay2": "layout after the contains-sweep",
+               "tree": "tree of array nodes after the operation", "ls": "get_level_statistics after the operation",
+               "finalfound": "closing contains-sweep", "finallay": "layout after the closing sweep", "final": "iteration order",
+               "finalh": "iteration order (hashes)"}
+
+
+def compare_struct(c, mo, io):
+    """First difference between the lines of the extracted model (mo) and of the real container (io), or None."""
+    if io is None or not io[1]:
+        return {"op": None, "what": "real container did not finish the case (crash, hang or memory blow-up)", "impl_lines_seen": len(io[0]) if io else 0}
+    if mo is None or not mo[1]:
+        return {"op": None, "what": "model driver did not finish the case"}
+    ml = mo[0]
+    il = [l for l in io[0] if not (c["family"] == "feldman" and (l == "final" or l.startswith("final ")))]
+    for i in range(max(len(ml), len(il))):
+        a = ml[i] if i < len(ml) else None
+        b = il[i] if i < len(il) else None
+        if a == b:
+            continue
+        if a is None or b is None:
+            return {"op": None, "what": "missing output line", "model": short(a or ""), "impl": short(b or "")}
+        ka, ja, fa = line_fields(a); kb, jb, fb = line_fields(b)
+        d = {"line": ka, "what": STRUCT_WHAT.get(ka, ka), "op": int(ja) if ja is not None and ja.isdigit() else None}
+        if ka == kb and ja == jb:
+            diff = [k for k in fa if fa.get(k) != fb.get(k)] + [k for k in fb if k not in fa]
+            d["fields"] = diff
+            d["model"] = {k: short(fa.get(k, "")) for k in diff}
+            d["impl"] = {k: short(fb.get(k, "")) for k in diff}
+        else:
+            d["model"] = short(a); d["impl"] = short(b)
+        if d["op"] is not None and 2 * d["op"] + 1 < len(c["ops"]):
+            d["operation"] = c["ops"][2 * d["op"]:2 * d["op"] + 2]
+        return d
+    return None
+
+
+def struct_stats(c, lines, st):
+    """Distributions read off the MODEL output of one case (equal to the real container's when the case agrees)."""
+    fam = c["family"]
+    if fam == "split":
+        lg = 1; maxrec = 0; newb = 0; cap = None
+        for l in lines:
+            if l.startswith("cap "):
+                cap = int(l.split()[1])
+            elif l.startswith("op "):
+                m = OP_RE.match(l)
+                if m: lg = int(m.group(4))
+            elif l.startswith("lay "):
+                k, j, f = line_fields(l)
+                maxrec = max(maxrec, int(f.get("rec", 0))); newb += int(f.get("new", 0))
+        fin = [l for l in lines if l.startswith("finallay ")]
+        nb = len(line_fields(fin[0])[2].get("buckets", "").split(",")) if fin else 0
+        st["growths"] += lg - 1
+        st["final_log2_bucket_count"][str(lg)] = st["final_log2_bucket_count"].get(str(lg), 0) + 1
+        st["max_init_bucket_recursion_depth"][str(maxrec)] = st["max_init_bucket_recursion_depth"].get(str(maxrec), 0) + 1
+        st["capacity"][str(cap)] = st["capacity"].get(str(cap), 0) + 1
+        st["buckets_initialised"] += nb
+        st["table"]["dynamic" if c["cfg"][2] else "static"] += 1
+        st["list"]["lazy" if c["cfg"][3] else "michael"] += 1
+        st["sweep"]["on" if c["cfg"][4] else "off"] += 1
+        st["table_full"] += 1 if any(" max=inf " in l for l in lines if l.startswith("lay ")) else 0
+        return lg > 1 or maxrec > 0
+    else:
+        ls = [l for l in lines if l.startswith("ls ")]
+        levels = [x.split(":") for x in ls[-1].split(" ", 2)[2].split(",")] if ls else []
+        for lvl, x in enumerate(levels[1:], 1):
+            st["expand_slot_per_level"][str(lvl)] = st["expand_slot_per_level"].get(str(lvl), 0) + int(x[0])
+        depth = len(levels) - 1
+        st["max_depth"][str(depth)] = st["max_depth"].get(str(depth), 0) + 1
+        st["hash_width"][str(c["cfg"][2])] = st["hash_width"].get(str(c["cfg"][2]), 0) + 1
+        met = [l for l in lines if l.startswith("met ")]
+        if met: st["effective_head_array_bits"][met[0][4:]] = st["effective_head_array_bits"].get(met[0][4:], 0) + 1
+        return depth > 0
+
+
 def other_part(ctx, model, cov, rng):
     exe = build_others(ctx)
     per = 10000 if ctx.thorough() else 1200
@@ -453,90 +634,126 @@ def other_part(ctx, model, cov, rng):
         if f.endswith(".json"):
             cc = json.load(open(os.path.join(cdir, f)))
             if cc.get("family") in ("striped", "split", "feldman"):
-                cases.append(cc)
+                cases.append(norm_case(cc))
     ncorpus = len(cases)
     for fam in ("striped", "split", "feldman"):
         cases += [gen_other_case(rng, "%s%d" % (fam[:2], i), fam) for i in range(per)]
     if ctx.replay:
         rc = json.load(open(ctx.replay))
-        cases = [rc["case"]] if rc.get("case", {}).get("family") in ("striped", "split", "feldman") else []
+        cases = [norm_case(rc["case"])] if rc.get("case", {}).get("family") in ("striped", "split", "feldman") else []
         ncorpus = 0
     if not cases:
         return 0, 0
-    # the extracted StripedSet model decides where striped cases are cut (capacity cap) and is compared in full
-    st = [c for c in cases if c["family"] == "striped"]
-    mpath = os.path.join(ctx.work, "striped_model_cases.txt")
-    write_other_cases(mpath, st, striped_model=True)
-    rc, out = vcheck.sh("ulimit -s unlimited; %s runs < %s" % (model, mpath), timeout=1200)
-    smod = parse_out(out)
-    run_cases = []
-    for c in cases:
-        if c["family"] == "striped":
-            m = smod.get(c["id"], {"ops": []})
-            c2 = dict(c); c2["ops"] = c["ops"][:2 * len(m["ops"])]
-            run_cases.append(c2)
-        else:
-            run_cases.append(c)
-    rout, bad_batches = run_batches(exe, run_cases, write_other_cases, ctx.work, "others", batch=300)
     fam_stats = {}
+    struct_st = {"split": {"growths": 0, "final_log2_bucket_count": {}, "max_init_bucket_recursion_depth": {}, "capacity": {}, "buckets_initialised": 0,
+                           "table": {"dynamic": 0, "static": 0}, "list": {"michael": 0, "lazy": 0}, "sweep": {"on": 0, "off": 0}, "table_full": 0},
+                 "feldman": {"expand_slot_per_level": {}, "max_depth": {}, "hash_width": {}, "effective_head_array_bits": {}}}
     distinct = set()
-    for c in run_cases:
-        fam = c["family"]
-        fs = fam_stats.setdefault(fam, {"cases": 0, "agree": 0, "diverged": 0, "ops_compared": 0, "grew": 0, "hash_kinds": {}, "ops": {"insert": 0, "erase": 0, "find": 0},
-                                        "config_kinds": set(), "model_compared": 0})
-        fs["cases"] += 1
-        fs["hash_kinds"][c.get("hash_kind", "corpus")] = fs["hash_kinds"].get(c.get("hash_kind", "corpus"), 0) + 1
-        fs["config_kinds"].add(tuple(c["cfg"]))
-        for j in range(0, len(c["ops"]), 2):
-            fs["ops"][{1: "insert", 2: "erase"}.get(c["ops"][j], "find")] += 1
-        r = rout.get(c["id"])
-        ref, ref_final = set_model(c)
-        d = None
-        if r is None or not r["done"]:
-            d = {"op": len(r["ops"]) if r else 0, "what": "real container did not finish the case (crash, hang or memory blow-up)"}
-        else:
-            for j, a in enumerate(ref):
-                if j >= len(r["ops"]):
-                    d = {"op": j, "what": "missing output"}; break
-                b_ = r["ops"][j]
-                for f in ("res", "size", "found"):
-                    if a[f] != b_[f]:
-                        lost = sorted(set(a["found"]) - set(b_["found"])) if f == "found" else None
-                        d = {"op": j, "field": f, "set_semantics": a[f], "impl": b_[f], "operation": c["ops"][2 * j:2 * j + 2], "lost_keys": lost}
-                        break
-                if d: break
-            if d is None and sorted(r["final"] or []) != ref_final:
-                d = {"op": len(ref), "field": "iteration", "set_semantics": ref_final, "impl": sorted(r["final"] or []),
-                     "lost_keys": sorted(set(ref_final) - set(r["final"] or []))}
-            if d is None and fam == "striped":
-                m = smod.get(c["id"])
-                if m:
+    samples = {}
+    names = {"striped": "StripedSet (internal_resize)", "split": "SplitListSet (bucket table growth / init_bucket)", "feldman": "FeldmanHashSet (expand_slot)"}
+
+    all_bad = []; total = [0]
+
+    def process(cases):
+        # the extracted StripedSet model decides where striped cases are cut (capacity cap) and is compared in full
+        st = [c for c in cases if c["family"] == "striped"]
+        mpath = os.path.join(ctx.work, "striped_model_cases.txt")
+        write_other_cases(mpath, st, striped_model=True)
+        rc, out = vcheck.sh("ulimit -s unlimited; %s runs < %s" % (model, mpath), timeout=1200)
+        smod = parse_out(out)
+        # the extracted split-list / Feldman structural models
+        struct_mod = {}
+        for fam in ("split", "feldman"):
+            struct_mod.update(run_struct_model(model, fam, [c for c in cases if c["family"] == fam], os.path.join(ctx.work, "%s_model_cases.txt" % fam)))
+        run_cases = []
+        for c in cases:
+            if c["family"] == "striped":
+                m = smod.get(c["id"], {"ops": []})
+                c2 = dict(c); c2["ops"] = c["ops"][:2 * len(m["ops"])]
+                run_cases.append(c2)
+            else:
+                run_cases.append(c)
+        raw = {}
+        rout, bad_batches = run_batches(exe, run_cases, write_other_cases, ctx.work, "others", batch=300, raw=raw)
+        def one_struct(cand):
+            """model and real container on one candidate -> (difference or None, impl lines)"""
+            cand = dict(cand, id="min")
+            mo = run_struct_model(model, cand["family"], [cand], os.path.join(ctx.work, "struct_min_m.txt")).get("min")
+            raw2 = {}
+            run_batches(exe, [cand], write_other_cases, ctx.work, "struct_min", timeout=20, raw=raw2)
+            io = raw2.get("min")
+            return compare_struct(cand, mo, io), mo, io
+
+        for c in run_cases:
+            fam = c["family"]
+            fs = fam_stats.setdefault(fam, {"cases": 0, "agree": 0, "diverged": 0, "ops_compared": 0, "grew": 0, "hash_kinds": {}, "ops": {"insert": 0, "erase": 0, "find": 0},
+                                            "config_kinds": set(), "model_compared": 0})
+            fs["cases"] += 1
+            fs["hash_kinds"][c.get("hash_kind", "corpus")] = fs["hash_kinds"].get(c.get("hash_kind", "corpus"), 0) + 1
+            fs["config_kinds"].add(tuple(c["cfg"]))
+            for j in range(0, len(c["ops"]), 2):
+                fs["ops"][{1: "insert", 2: "erase"}.get(c["ops"][j], "find")] += 1
+            r = rout.get(c["id"])
+            ref, ref_final = set_model(c)
+            sweep = fam != "split" or c["cfg"][4] != 0
+            d = None
+            if r is None or not r["done"]:
+                d = {"op": len(r["ops"]) if r else 0, "what": "real container did not finish the case (crash, hang or memory blow-up)"}
+            else:
+                for j, a in enumerate(ref):
+                    if j >= len(r["ops"]):
+                        d = {"op": j, "what": "missing output"}; break
+                    b_ = r["ops"][j]
+                    for f in ("res", "size", "found") if sweep else ("res", "size"):
+                        if a[f] != b_[f]:
+                            lost = sorted(set(a["found"]) - set(b_["found"])) if f == "found" else None
+                            d = {"op": j, "field": f, "set_semantics": a[f], "impl": b_[f], "operation": c["ops"][2 * j:2 * j + 2], "lost_keys": lost}
+                            break
+                    if d: break
+                if d is None and sorted(r["final"] or []) != ref_final:
+                    d = {"op": len(ref), "field": "iteration", "set_semantics": ref_final, "impl": sorted(r["final"] or []),
+                         "lost_keys": sorted(set(ref_final) - set(r["final"] or []))}
+                if d is None and fam == "striped":
+                    m = smod.get(c["id"])
+                    if m:
+                        fs["model_compared"] += 1
+                        for j in range(len(ref)):
+                            for f in ("res", "size", "lg", "found"):
+                                if m["ops"][j][f] != r["ops"][j][f]:
+                                    d = {"op": j, "field": "%s (extracted StripedSeq model)" % f, "model": m["ops"][j][f], "impl": r["ops"][j][f]}
+                                    break
+                            if d: break
+                        if d is None and len(m["ops"]) == len(c["ops"]) // 2 == len(ref) and m["final"] != r["final"] and c["cfg"][3] == 0:
+                            d = {"op": len(ref), "field": "final layout (clear_and_dispose order)", "model": m["final"], "impl": r["final"]}
+                        if r["ops"] and r["ops"][-1]["lg"] > c["cfg"][0]:
+                            fs["grew"] += 1; distinct.add(json.dumps([fam, c["cfg"], c["hash"], c["ops"]]))
+            fs["ops_compared"] += len(ref)
+            # ---- split-list / Feldman: the extracted structural model, line by line
+            ds = None
+            if fam != "striped":
+                mo = struct_mod.get(c["id"])
+                if mo is not None and mo[1]:
                     fs["model_compared"] += 1
-                    for j in range(len(ref)):
-                        for f in ("res", "size", "lg", "found"):
-                            if m["ops"][j][f] != r["ops"][j][f]:
-                                d = {"op": j, "field": "%s (extracted StripedSeq model)" % f, "model": m["ops"][j][f], "impl": r["ops"][j][f]}
-                                break
-                        if d: break
-                    if d is None and len(m["ops"]) == len(c["ops"]) // 2 == len(ref) and m["final"] != r["final"] and c["cfg"][3] == 0:
-                        d = {"op": len(ref), "field": "final layout (clear_and_dispose order)", "model": m["final"], "impl": r["final"]}
-                    if r["ops"] and r["ops"][-1]["lg"] > c["cfg"][0]:
+                    if struct_stats(c, mo[0], struct_st[fam]):
                         fs["grew"] += 1; distinct.add(json.dumps([fam, c["cfg"], c["hash"], c["ops"]]))
-        fs["ops_compared"] += len(ref)
-        if fam != "striped" and len(ref) and ref[-1]["size"] > 2:
-            fs["grew"] += 1; distinct.add(json.dumps([fam, c["cfg"], c["hash"], c["ops"]]))
-        if d is None:
-            fs["agree"] += 1
-        else:
+                    if fam not in samples and len(c["ops"]) <= 24 and (len([l for l in mo[0] if l.startswith("ls ") and "," in l]) or any(" rec=1" in l or " rec=2" in l for l in mo[0])):
+                        samples[fam] = dict(c, model_and_impl_output_last_lines=mo[0][-4:])
+                ds = compare_struct(c, mo, raw.get(c["id"]))
+            if d is None and ds is None:
+                fs["agree"] += 1
+                continue
             fs["diverged"] += 1
-            if fs["diverged"] == 1 and "lg" not in str(d.get("field", "")) and "layout" not in str(d.get("field", "")):
+            if fs["diverged"] > 1:
+                continue
+            if d is not None and "lg" not in str(d.get("field", "")) and "layout" not in str(d.get("field", "")):
                 def diff_of(cand):
                     cand = dict(cand, id="min")
                     ro, _ = run_batches(exe, [cand], write_other_cases, ctx.work, "others_min", timeout=20)
                     rr = ro.get("min"); ref2, fin2 = set_model(cand)
+                    sw2 = cand["family"] != "split" or cand["cfg"][4] != 0
                     if rr is None or not rr["done"]: return {"op": 0, "what": "real container did not finish the case"}, rr
                     for j2, a2 in enumerate(ref2):
-                        for f2 in ("res", "size", "found"):
+                        for f2 in ("res", "size", "found") if sw2 else ("res", "size"):
                             if j2 >= len(rr["ops"]) or a2[f2] != rr["ops"][j2][f2]:
                                 return {"op": j2, "field": f2, "set_semantics": a2[f2], "impl": rr["ops"][j2][f2] if j2 < len(rr["ops"]) else None,
                                         "operation": cand["ops"][2 * j2:2 * j2 + 2],
@@ -550,17 +767,50 @@ def other_part(ctx, model, cov, rng):
                 d2, r2 = diff_of(small)
                 if d2 is not None:
                     c, d, r = small, d2, r2
-            names = {"striped": "StripedSet (internal_resize)", "split": "SplitListSet (bucket table growth / init_bucket)", "feldman": "FeldmanHashSet (expand_slot)"}
-            if d.get("lost_keys"):
-                what = "%s lost keys during growth: an element inserted successfully is no longer found" % names[fam]
+            if d is not None:
+                if d.get("lost_keys"):
+                    what = "%s lost keys during growth: an element inserted successfully is no longer found" % names[fam]
+                else:
+                    what = "%s differs from set semantics after an operation" % names[fam]
+                ctx.violation(what, {"case": c, "first_difference": d, "impl_ops": (r or {}).get("ops", [])[:(d.get("op") or 0) + 1]}, signature=None)
             else:
-                what = "%s differs from set semantics after an operation" % names[fam]
-            ctx.violation(what, {"case": c, "first_difference": d, "impl_ops": (r or {}).get("ops", [])[:d.get("op", 0) + 1]}, signature=None)
+                # the observable set behaviour is right, the structure is not the model's: shrink and report
+                c0 = c
+                if ds.get("op") is not None:
+                    start = dict(c); start["ops"] = c["ops"][:2 * (ds["op"] + 1)]
+                    if one_struct(start)[0] is not None: c0 = start
+                small = minimise(c0, lambda cand: one_struct(cand)[0] is not None)
+                ds2, mo2, io2 = one_struct(small)
+                if ds2 is None:
+                    small = c; ds2, mo2, io2 = one_struct(c)
+                    ds2 = ds2 or ds
+                what = "%s: %s of the real container differs from the extracted %s model" % (names[fam], ds2.get("what", "structure"), "SplitSeq" if fam == "split" else "FeldmanSeq")
+                ctx.violation(what, {"case": small, "first_difference": ds2,
+                                     "model_output": [short(l, 1500) for l in (mo2[0] if mo2 else [])][-12:],
+                                     "impl_output": [short(l, 1500) for l in (io2[0] if io2 else [])][-12:]}, signature=None)
+        all_bad.extend(bad_batches); total[0] += len(run_cases)
+
+    # chunks keep the memory bounded in the thorough tier (every line of both outputs is held while a chunk is compared)
+    CH = 3000
+    for i in range(0, len(cases), CH):
+        process(cases[i:i + CH])
+    bad_batches = all_bad
     for fs in fam_stats.values():
         fs["config_kinds"] = len(fs["config_kinds"])
     cov["others"] = {"families": fam_stats, "corpus_cases": ncorpus, "watchdog_batches": bad_batches,
-                     "reference": "plain set semantics (results, size(), contains() of every key, iteration); StripedSet additionally against the extracted StripedSeq model (bucket_count after every op, final bucket layout)"}
-    return len(run_cases), len(distinct)
+                     "split_list_distributions": struct_st["split"], "feldman_distributions": struct_st["feldman"],
+                     "struct_samples": list(samples.values()),
+                     "reference": "plain set semantics (results, size(), contains() of every key, iteration) AND the extracted model of each family, after every operation: "
+                                  "StripedSeq (bucket_count, final bucket layout); SplitSeq via SplitSeqObs (bucket table capacity and load factor, m_nBucketCountLog2, m_nMaxItemCount, "
+                                  "number of buckets created and of recursive init_bucket calls per operation, the walk of the ordered list INCLUDING dummy nodes as (split-order hash, dummy?, key), "
+                                  "the set of initialised buckets with the list position their table entry points to; before and after the contains-sweep); "
+                                  "FeldmanSeq via FeldmanSeqObs (effective head/array bits, every slot of every array node in tree order: empty / hash of the data node / nested array, "
+                                  "get_level_statistics per level, iteration order)",
+                     "abstraction_of_the_real_dump": "split-list: a list node is abstracted to (m_nHash, is_dummy(), key of the item; 0 for a dummy) - addresses, HP guards and the mark bit of the next pointer are dropped "
+                                                     "(one thread, no logically deleted node survives an operation); a bucket table entry is abstracted to the index in the walk of the node it points to. "
+                                                     "Feldman: a data slot is abstracted to the hash of the item it points to (the model stores hashes: two items with equal hashes are the same element), "
+                                                     "an array slot to the sequence of its slots; the flag_array_converting state never shows between operations of one thread (printed as `converting` if it did)"}
+    return total[0], len(distinct)
 
 
 def model_search(ctx, model, cov):
@@ -612,9 +862,10 @@ def run(ctx):
         ctx.violation("Coq obligations of C17 do not check: %s" % (res.failed[:2],), {"theorem": [f[2] for f in res.failed], "errors": res.failed[:3]}, no_input=True)
     ctx.coverage.update(cov)
     ctx.coverage.update({"evaluations": n1 + n2, "distinct_nontrivial": d1 + d2, "model_side_exhaustive_assignments": nsearch,
-                         "rule": "a case = family x configuration x hash lookup table(s) x operation sequence, run on the real container and compared after every operation; non-trivial = distinct case in which the container grew at least once (cuckoo/striped: bucket_count doubled; split-list/Feldman: more than 2 elements, i.e. bucket-table growth / slot expansion possible)",
+                         "rule": "a case = family x configuration x hash lookup table(s) x operation sequence, run on the real container and compared after every operation; non-trivial = distinct case in which the container grew at least once (cuckoo/striped: bucket_count doubled; split-list: m_nBucketCountLog2 incremented or init_bucket recursed; Feldman: at least one expand_slot)",
                          "samples": cov.pop("samples", [])})
     return ctx.finish(vcheck.STD_TRUSTED + ["ocaml/c17_main.ml (case parsing / printing)", "harness/C17/*.cpp", "lookup-table hash functors stand for arbitrary hash functions on the executions explored (the theorems quantify over all functions)"],
                       ["one thread: every lock acquisition succeeds", "capacities are powers of two (the constructors apply ceil2)",
                        "CuckooSet: no two equal keys are in the set when resize() runs (C++ resize() reads uninitialised positions otherwise); holds on reachable tables (C17_cuckoo_nodup)",
-                       "split-list / Feldman structural models are tied to the code by reading only; their observable behaviour is compared against plain set semantics"])
+                       "split-list: the list order, bucket numbers and split-order keys are compared for 64-bit size_t and the default bit_reversal (lookup); MichaelList and LazyList (HP) as the ordered list",
+                       "Feldman: unsigned 8/16/32/64-bit hashes (8-bit: the generic split_bitstring; the others: number_splitter), effective head bits < hash width"])
